@@ -107,7 +107,7 @@ MANIFEST = {
                     "critical sections = every interleaving, every ComposeFrom/Send fault oracle, every clock): exactly_once / accounting (permutation), "
                     "group_integrity (each composite = the events of its id pending since the group opened, in arrival order), dests_permitted (discard only "
                     "for no-Broker / compose error / Gateable composite / send error), handed_over_exactly_once_after_flush, accepted_withheld, flush_returns_group, non_gateable_identity, "
-                    "empty_id_rejected, broker_composites_not_gateable; tie: gatedh runs every history to depth 5 (quick; up to renaming of ids, and to depth 3 without that reduction) / 7 (thorough; depth 5 without it) "
+                    "empty_id_rejected, broker_composites_not_gateable; verdict_is_model_execution (RunGatedSound / RunSinksSound: the evaluator's empty mismatch list <-> every observed case is an execution of the model meeting the oracles, both directions); tie: gatedh runs every history to depth 5 (quick; up to renaming of ids, and to depth 3 without that reduction) / 7 (thorough; depth 5 without it) "
                     "over {event(3 ids, flush?), no-id event, non-Gateable, clock advances 1/exp-1/exp/exp+1, FlushAll, Close} x Broker set/unset x fault "
                     "oracles, random histories to 200 calls over 5 ids, concurrent senders (under -race) and 60 scenarios in which a second call arrives while the first call's Send through the Broker is parked (every group composed and sent exactly once) on the real filter; Run_Gated.mismatches compares result, "
                     "ComposeFrom arguments, Sender payloads and the VerifGated snapshot after every call and evaluates observation-only oracles",
@@ -119,7 +119,7 @@ MANIFEST = {
                     "compared with the model after every call plus the observation-only 'nothing lingers' oracle",
             "design_ref": "5.C17", "note": _NOTE, "technique": _TECH, "engine": "coq-gated"},
 }
-ENGINE = {"name": "coq-gated", "path": "coq/Gated.v coq/GatedProofs.v coq/GatedExamples.v coq/Run_Gated.v harness/cmd/gatedh lib/eng_gated.py",
+ENGINE = {"name": "coq-gated", "path": "coq/Gated.v coq/GatedProofs.v coq/GatedExamples.v coq/Run_Gated.v coq/RunGatedSound.v harness/cmd/gatedh lib/eng_gated.py",
           "serves_properties": ["C11", "C17"], "kind_free_text": "Coq model + proofs; Go differential driver; vm_compute comparison"}
 
 
